@@ -30,6 +30,7 @@ ASSUMPTIONS = [
 ]
 ANCHOR_FILES = ("src/pydrobert/speech/compute.py", "src/pydrobert/speech/filters.py")
 EXHAUSTIVE_PARTS = []
+SUITE_TESTS = ['tests/test_compute.py', 'tests/test_torch.py', 'tests/test_command_line.py']  # the repository's own tests as an extra monitored workload (thorough tier)
 LEVEL_TEXT = (
     "Every compute_full call of the workload (2.5e3 quick / 4e4 thorough computer x signal cases, all four D mod 4 classes, complex banks whose "
     "responses wrap below 0 Hz or past Nyquist, all flags) is compared coefficient by coefficient with a reference that shares no code with the "
@@ -245,6 +246,10 @@ def plan(tier, seed):
 
 
 def run_shard(spec, rec):
+    if "suite" in spec:
+        from .. import suite
+
+        return suite.run(__name__.rsplit(".", 1)[-1], spec, rec)
     mon = StftMonitor(rec)
     mon.attach()
     for i in range(spec["a"], spec["b"]):
